@@ -123,6 +123,11 @@ def make_case(ctx, g):
                 b._init_scope(h)
     for c in all_containers(w, roots):
         check_container(ctx, g, w, c, fails, flags)
+    if g.chance(0.25) and b.mutate_in_place(roots):
+        # second chapter: records arrive / are extended after lookups have already been answered
+        flags.add("changed-after-first-lookups")
+        for c in all_containers(w, roots):
+            check_container(ctx, g, w, c, fails, flags)
     for d in roots:
         w.obs(d)
     ctx.evaluations += 1
